@@ -39,6 +39,9 @@ def FB.read (b : FB) (n : Nat) : FB × List UInt8 :=
   (if rest.isEmpty then { b with r := 0, data := [] } else { b with r := b.r + k, data := rest },
    b.data.take k)
 
+/-- `FixedBuffer.Reset` -/
+def FB.reset (b : FB) : FB := { b with r := 0, data := [] }
+
 /-- error codes: `0` is `io.EOF` (the only value `closeWithError` treats specially); others opaque. -/
 abbrev Err := Nat
 
@@ -112,6 +115,12 @@ def Pipe.brk (p : Pipe) (e : Err) : Pipe :=
   | some old => if old = 0 then { p with breakErr := some e } else p
   | none => { p with readFn := false, breakErr := some e, donec := closeDone p.donec }
 
+/-- `Discard()`: drops the buffered unread bytes, returns how many there were (no Signal) -/
+def Pipe.discard (p : Pipe) : Pipe × Nat :=
+  match p.b with
+  | none => (p, 0)
+  | some fb => ({ p with b := some fb.reset }, fb.len)
+
 def Pipe.getErr (p : Pipe) : Option Err :=
   match p.breakErr with
   | some e => some e
@@ -138,17 +147,25 @@ structure Sys where
   rd : RPc
   accepted : List UInt8     -- ghost: all bytes accepted by `Write` calls, in order
   delivered : List UInt8    -- ghost: all bytes returned by `Read` calls, in order
+  ledger : List (UInt8 × Bool)  -- ghost: every byte that left the buffer, in order; `true` = handed to a
+                                -- Read, `false` = dropped by Discard / Release
   crashed : Bool            -- nil dereference in a second `Release`
 deriving Repr, DecidableEq
 
 def Sys.init (cap : Nat) : Sys :=
-  { p := Pipe.new cap, rd := .idle, accepted := [], delivered := [], crashed := false }
+  { p := Pipe.new cap, rd := .idle, accepted := [], delivered := [], ledger := [], crashed := false }
+
+/-- `NewPipeFromBufferPool`: a new pipe around whatever buffer the pool hands out; fresh ghost history -/
+def Sys.fromBuffer (fb : FB) : Sys :=
+  { p := { b := some fb, err := none, breakErr := none, readFn := false, donec := none },
+    rd := .idle, accepted := [], delivered := [], ledger := [], crashed := false }
 
 inductive Act
   | write (d : List UInt8)
   | close (e : Err) (fn : Bool)
   | brk (e : Err)
   | release
+  | discard
   | startRead (n : Nat)
   | readerStep
   | getErr
@@ -161,6 +178,7 @@ inductive Obs
   | read (r : RdRes)
   | errIs (e : Option Err)
   | doneIs (closed : Bool)
+  | discarded (n : Nat)
   | disabled
   | crash
 deriving Repr, DecidableEq
@@ -182,7 +200,14 @@ def Sys.step (s : Sys) (a : Act) : Sys × Obs :=
   | .release =>
     match s.p.b with
     | none => ({ s with crashed := true }, .crash)
-    | some _ => ({ s with p := { s.p with b := none } }, .unit)     -- no Signal in Release
+    | some fb =>                                                     -- no Signal in Release
+      ({ s with p := { s.p with b := none }, ledger := s.ledger ++ fb.data.map (·, false) }, .unit)
+  | .discard =>
+    match s.p.b with
+    | none => (s, .discarded 0)
+    | some fb =>
+      ({ s with p := { s.p with b := some fb.reset }, ledger := s.ledger ++ fb.data.map (·, false) },
+        .discarded fb.len)
   | .startRead n =>
     match s.rd with
     | .idle => ({ s with rd := .ready n }, .unit)
@@ -192,7 +217,9 @@ def Sys.step (s : Sys) (a : Act) : Sys × Obs :=
     | .ready n =>
       match s.p.readTry n with
       | (p', .wait) => ({ s with p := p', rd := .waiting n }, .read .wait)
-      | (p', .data bs) => ({ s with p := p', rd := .idle, delivered := s.delivered ++ bs }, .read (.data bs))
+      | (p', .data bs) =>
+        ({ s with p := p', rd := .idle, delivered := s.delivered ++ bs,
+                  ledger := s.ledger ++ bs.map (·, true) }, .read (.data bs))
       | (p', .err e f) => ({ s with p := p', rd := .idle }, .read (.err e f))
     | _ => (s, .disabled)
   | .getErr => (s, .errIs s.p.getErr)
@@ -209,5 +236,42 @@ def Sys.run (s : Sys) : List Act → Sys × List Obs
 
 /-- final state only -/
 def Sys.exec (s : Sys) (as : List Act) : Sys := as.foldl (fun s a => (s.step a).1) s
+
+/-! ### pipe lifecycles over a shared buffer pool
+
+  `NewPipeFromBufferPool(pool)` takes a buffer out of the pool (or a brand-new one when `pool.New` runs),
+  `Release(pool)` does `p.b.Reset(); pool.Put(p.b); p.b = nil`.  `sync.Pool.Get` may return any pooled
+  item, so which buffer a new pipe gets is a parameter of the action. -/
+
+structure World where
+  pool : List FB
+  pipes : List Sys
+deriving Repr, DecidableEq
+
+def World.init : World := { pool := [], pipes := [] }
+
+inductive WAct
+  | fresh (cap : Nat)      -- new pipe, the pool runs `New`: a brand-new empty buffer
+  | reuse (k : Nat)        -- new pipe, `Get` returns the k-th pooled buffer
+  | on (i : Nat) (a : Act) -- one atomic step of pipe `i` (or of its reader)
+deriving Repr, DecidableEq
+
+def World.step (w : World) : WAct → World
+  | .fresh cap => { w with pipes := w.pipes ++ [Sys.fromBuffer { cap := cap, r := 0, data := [] }] }
+  | .reuse k =>
+    match w.pool[k]? with
+    | none => w
+    | some fb => { pool := w.pool.eraseIdx k, pipes := w.pipes ++ [Sys.fromBuffer fb] }
+  | .on i a =>
+    match w.pipes[i]? with
+    | none => w
+    | some s =>
+      let pool' :=
+        match a, s.crashed, s.p.b with
+        | .release, false, some fb => w.pool ++ [fb.reset]       -- Reset(), then Put
+        | _, _, _ => w.pool
+      { pool := pool', pipes := w.pipes.set i (s.step a).1 }
+
+def World.exec (w : World) (as : List WAct) : World := as.foldl World.step w
 
 end BfeVerif.C21
